@@ -415,6 +415,9 @@ func (tic *TermInCommittee) validatePreprepare(ppm *interfaces.PreprepareMessage
 
 	header := ppm.Content().SignedHeader()
 	sender := ppm.Content().Sender()
+	if header.MessageType() != protocol.LEAN_HELIX_PREPREPARE {
+		return fmt.Errorf("signed header has message type %v, not PREPREPARE", header.MessageType())
+	}
 	if err := tic.keyManager.VerifyConsensusMessage(header.BlockHeight(), header.Raw(), sender); err != nil {
 		tic.logger.ConsensusTrace("failed to verify preprepare - maybe a committee mismatch?", err, log.Stringable("sender", sender))
 
@@ -462,6 +465,10 @@ func (tic *TermInCommittee) HandlePrepare(pm *interfaces.PrepareMessage) {
 	header := pm.Content().SignedHeader()
 	sender := pm.Content().Sender()
 
+	if header.MessageType() != protocol.LEAN_HELIX_PREPARE {
+		tic.logger.Info("LHMSG RECEIVED PREPARE IGNORE - signed header has message type %v", header.MessageType())
+		return
+	}
 	if err := tic.keyManager.VerifyConsensusMessage(header.BlockHeight(), header.Raw(), sender); err != nil {
 		tic.logger.Info("LHMSG RECEIVED PREPARE IGNORE - verification failed for Prepare block-height=%v view=%d block-hash=%s err=%v", header.BlockHeight(), header.View(), header.BlockHash(), err)
 		return
@@ -550,6 +557,10 @@ func (tic *TermInCommittee) HandleCommit(cm *interfaces.CommitMessage) {
 	header := cm.Content().SignedHeader()
 	sender := cm.Content().Sender()
 
+	if header.MessageType() != protocol.LEAN_HELIX_COMMIT {
+		tic.logger.Info("LHMSG RECEIVED COMMIT IGNORE - signed header has message type %v", header.MessageType())
+		return
+	}
 	if err := tic.keyManager.VerifyConsensusMessage(header.BlockHeight(), header.Raw(), sender); err != nil {
 		tic.logger.Info("LHMSG RECEIVED COMMIT IGNORE - verification failed for Commit block-height=%d view=%d block-hash=%s err=%v", header.BlockHeight(), header.View(), header.BlockHash(), err)
 		return
@@ -675,6 +686,10 @@ func (tic *TermInCommittee) isViewChangeValid(expectedLeaderFromNewView primitiv
 	vcmView := header.View()
 	preparedProof := header.PreparedProof()
 
+	if header.MessageType() != protocol.LEAN_HELIX_VIEW_CHANGE {
+		return fmt.Errorf("signed header has message type %v, not VIEW_CHANGE", header.MessageType())
+	}
+
 	if err := tic.keyManager.VerifyConsensusMessage(header.BlockHeight(), header.Raw(), sender); err != nil {
 		return errors.Wrapf(err, "keyManager.VerifyConsensusMessage failed")
 	}
@@ -739,6 +754,11 @@ func (tic *TermInCommittee) HandleNewView(nvm *interfaces.NewViewMessage) {
 			break
 		}
 		viewChangeConfirmations = append(viewChangeConfirmations, viewChangeConfirmationsIter.NextViewChangeConfirmations())
+	}
+
+	if nvmHeader.MessageType() != protocol.LEAN_HELIX_NEW_VIEW {
+		tic.logger.Info("LHMSG RECEIVED NEW_VIEW IGNORE - signed header has message type %v", nvmHeader.MessageType())
+		return
 	}
 
 	if err := tic.keyManager.VerifyConsensusMessage(nvmHeader.BlockHeight(), nvmHeader.Raw(), nvmSender); err != nil {
